@@ -5,6 +5,7 @@
 //! implementation's canonical answers, one per line) and `<outdir>/<property>.stats.json`
 //! (input distribution, oracle results).
 mod alloc;
+mod c05;
 mod c06;
 mod c09;
 mod c10;
@@ -37,6 +38,7 @@ fn main() {
     }
     let mut out = util::Out::new();
     match prop {
+        "C05" => c05::run(&mut out, thorough, seed),
         "C06" => c06::run(&mut out, thorough, seed),
         "C09" => c09::run(&mut out, thorough, seed),
         "C10" => c10::run(&mut out, thorough, seed),
